@@ -182,6 +182,16 @@ CLAIMS = {
         note="Trusted: the induction argument in DESIGN.md 4/C13; deque semantics. A restructured function body yields an analysis "
              "error (exit 2), never a violation.",
         technique="structured syntax-tree must-pass analysis with abstract interpretation of the matched expressions (gated terms, linear forms)"),
+    "C11": dict(
+        text="Static analysis of the mutation clauses without a reference table: for every documented setter the object is packed once "
+             "(caches exist), mutated, packed again, and the octet stream and reported length are compared cell for cell with those of "
+             "an object freshly constructed with the final values (TC/TM data, EOF/Finished/Metadata/NAK/Keep Alive/File Data setters "
+             "under every configuration case, USLP data zone and frame-length update); the store log of constructor + pack() is "
+             "searched for stores that reach the caller's PduConfig or the ID objects it holds; pack() twice yields identical terms "
+             "and equality is unchanged by packing.",
+        note="Trusted: the interpreter's store log (all attribute stores go through setattr). Setter sequences of length one or two per "
+             "field; longer histories follow because every setter ends in the same recomputation from current field values.",
+        technique="ast-based abstract interpretation (gated terms) + normal-form comparison mutated-vs-fresh + store-log alias analysis"),
 }
 
 NOT_CLAIMED = {}
